@@ -21,12 +21,26 @@
       rationals `int(4 / 49 * 49) = 4` (C03_Cd_index_rat); with IEEE doubles the same expression is 3
       (`#eval` below, and the corpus case of harness/c03_cd.py), so the element of cost 4 is merged into the
       CostTuple of cost 3 and popped with it: finding C03-F5.
+    * THE ORDER CONTRACT OF THE QUEUE (exact rationals, both forms of the bucket index): the placement
+      invariant `QOrd` (every stored CostTuple sits in the cell and nested sub-cell its cost maps to,
+      relative to `mini` / `translation`; `mini = start + maxi*n/k`) holds initially (C03_Cd_queue_init), is
+      kept by `push` for every cost in the window `[mini, mini + maxi)` (C03_Cd_push_placed), by `update`
+      (which succeeds, keeps the content and leaves `translation` on a non-empty cell: C03_Cd_update) and by
+      `pop`, and `pop` returns the stored CostTuple of STRICTLY SMALLEST cost, inside the first bucket
+      `[mini, mini + maxi/k)` (C03_Cd_pop_near_min).  Together with C03_Cd_merge_slack_rat: a popped
+      CostTuple is the cheapest stored one, and every index tuple it carries was pushed with a cost at
+      most 1 away from its cost — the slack the queue guarantees is exactly the merge tolerance.  ONE STATEMENT
+      (C03_Cd_queue_slack, with C03_Cd_queue_slack_push): tracking every push `(cost, index tuple)` through the
+      merges, `pop` hands out the pushes of the cheapest CostTuple, each within 1 of its cost, and every
+      popped push is cheaper than every push still stored up to 2 cost units.
   NOT proved (compared on every case against the integer costs and exact probabilities computed by
-  the harness, with the slack 16 of the pinned tests): the placement invariant of the cells, hence that
-  the popped CostTuple is a minimum; the order of the yielded sequence; prefix completeness.
+  the harness, with the slack 16 of the pinned tests): that the search keeps its pushes inside the
+  window (false: finding C02-F5); the order of the yielded sequence; prefix completeness.
 -/
 import PS.Model.Enum.ConstantDelay
 import PS.Proofs.Enum.CDQueue
+import PS.Proofs.Enum.CDOrder
+import PS.Proofs.Enum.CDSlack
 namespace PS.C03Cd
 open PS PS.CD
 
@@ -153,5 +167,81 @@ theorem C03_Cd_misplaced_merge (A : Arith α) (k f : Nat) (e val : CT α) (cost 
     pushCells A k (f + 1) e cost maxi cells tr =
       some (cells.set i (.leaf { val with combs := val.combs ++ e.combs }), false) := by
   simp only [pushCells, hz, hmf, Bool.false_eq_true, if_false, hi, hc, hclose]
+
+/-! ### the order contract of the queue (exact rationals, both forms of the bucket index) -/
+
+/-- `QOrd q`: counters in sync, every stored CostTuple in the cell and nested sub-cell its cost maps to
+    relative to `mini` / `translation`, `mini = start + maxi * n / k`.  It holds for `CDQueue(maxi, k)` with
+    `maxi > 0` and after `clear()` -/
+theorem C03_Cd_queue_init (b : Bool) (maxi0 : Int) (k0 : Nat) (q : Q Rat) (hm : 0 < maxi0)
+    (h : Q.new (ratA b) maxi0 k0 = some q) : QOrd q ∧ QOrd q.clear :=
+  ⟨qord_new b maxi0 k0 q hm h, qord_clear q (qord_new b maxi0 k0 q hm h)⟩
+
+/-- **placement is kept by `push`** for every cost in the window `[mini, mini + maxi)` (any cost when the
+    queue is fresh); `maxi` is `maxi0 * (k + 1) / k`, so a spread of `maxi0` always fits -/
+theorem C03_Cd_push_placed (b asserts : Bool) (q q' : Q Rat) (e : CT Rat) (hq : QOrd q)
+    (hwin : ∀ mini, q.mini = some mini → mini ≤ e.cost ∧ e.cost < mini + q.maxi)
+    (h : q.push (ratA b) e asserts = some q') : QOrd q' :=
+  qord_push b asserts q q' e hq hwin h
+
+/-- **`update`** succeeds on a non-empty queue, keeps the invariant and the content, and leaves
+    `translation` on a non-empty cell (so the next `pop` succeeds: C02_Cd_queue_pop_total) -/
+theorem C03_Cd_update (b : Bool) (q : Q Rat) (hq : QOrd q) :
+    ∃ q', q.update (ratA b) = some q' ∧ QOrd q' ∧ q'.cells = q.cells ∧ q'.nelements = q.nelements ∧
+      (q.nelements ≠ 0 → ∃ c, q'.cells[q'.translation]? = some c ∧ c.tuples ≠ []) := by
+  obtain ⟨q', h⟩ := qord_update_total b q hq
+  exact ⟨q', h, qord_update b q q' hq h⟩
+
+/-- **ORDER CONTRACT** (`pop` near the minimum — in fact AT the minimum): with exact rationals `pop` returns
+    the stored CostTuple of strictly smallest cost; it lies in the first bucket `[mini, mini + maxi/k)`, so
+    in particular within one bucket width `maxi / k` of every stored cost; nested cells (width
+    `maxi / k^j` at depth `j`) are what makes the order exact inside a bucket.  The invariant is kept. -/
+theorem C03_Cd_pop_near_min (q q' : Q Rat) (p : CT Rat) (hq : QOrd q) (h : q.pop = some (p, q')) :
+    QOrd q' ∧ (∀ t ∈ q'.tuples, p.cost < t.cost) ∧
+    ∃ mini, q.mini = some mini ∧ mini ≤ p.cost ∧ p.cost < mini + q.maxi / (q.k : Rat) :=
+  qord_pop q q' p hq h
+
+/-- non-vacuity and the whole protocol on a literal: unit 500, costs 100, 101 (merged), 150 (split into a nested
+    cell), 1700 (another bucket): pops come out as 100 (with the merged tuple), 150, 1700 -/
+example : (do
+    let q ← Q.new (ratA true) 2000 4
+    let q ← q.push (ratA true) ⟨100, [[0, 0]]⟩
+    let q ← q.push (ratA true) ⟨1700, [[2, 2]]⟩
+    let q ← q.push (ratA true) ⟨101, [[1, 0]]⟩
+    let q ← q.push (ratA true) ⟨150, [[0, 1]]⟩
+    let q ← q.update (ratA true)
+    let (p1, q) ← q.pop
+    let q ← q.update (ratA true)
+    let (p2, q) ← q.pop
+    let q ← q.update (ratA true)
+    let (p3, _) ← q.pop
+    pure [(p1.cost, p1.combs), (p2.cost, p2.combs), (p3.cost, p3.combs)]) =
+    some [(100, [[0, 0], [1, 0]]), (150, [[0, 1]]), (1700, [[2, 2]])] := by decide +kernel
+
+/-! ### the slack the queue guarantees, in one statement -/
+
+/-- tracking (`Tracked q G`): `G` lists every stored CostTuple with the pushes `(cost, index tuple)` merged into
+    it; a group carries exactly the index tuples of its CostTuple and each member was pushed with a cost at most
+    1 away from the cost of the CostTuple.  A fresh queue is tracked by `[]`; `push` extends the tracking by
+    the pushes of the element, as a new group or inside ONE existing group -/
+theorem C03_Cd_queue_slack_push (b asserts : Bool) (q q' : Q Rat) (e : CT Rat) (G : List (CT Rat × List Push))
+    (hq : QWF q) (ht : Tracked q G) (h : q.push (ratA b) e asserts = some q') :
+    ∃ G', Tracked q' G' ∧ (G'.flatMap (·.2)).Perm (G.flatMap (·.2) ++ ghostOf e) :=
+  tracked_push b asserts q q' e G hq ht h
+
+/-- **THE SLACK OF THE QUEUE** (exact rationals): under the placement invariant, `pop` returns the CostTuple `p`
+    of strictly smallest cost together with its group `grp`: `p` carries exactly the index tuples of `grp`, each
+    of them was pushed with a cost within 1 of `p.cost`, and EVERY POPPED PUSH IS CHEAPER THAN EVERY PUSH THAT
+    STAYS IN THE QUEUE UP TO 2 COST UNITS (`m.1 < m'.1 + 2`; one unit = `precision` in log-probability).
+    Invariant and tracking are kept, so the statement holds along every run of pushes (inside the window),
+    updates and pops. -/
+theorem C03_Cd_queue_slack (q q' : Q Rat) (p : CT Rat) (G : List (CT Rat × List Push)) (hq : QOrd q)
+    (ht : Tracked q G) (h : q.pop = some (p, q')) :
+    ∃ grp G', G.Perm ((p, grp) :: G') ∧ Tracked q' G' ∧ QOrd q' ∧ p.combs = grp.map (·.2) ∧
+      (∀ m ∈ grp, m.1 - p.cost ≤ 1 ∧ p.cost - m.1 ≤ 1) ∧
+      ∀ m ∈ grp, ∀ pr' ∈ G', ∀ m' ∈ pr'.2, m.1 < m'.1 + 2 :=
+  tracked_pop q q' p G hq ht h
+
+example (q : Q Rat) (h : q.tuples = []) : Tracked q [] := tracked_empty q h
 
 end PS.C03Cd
